@@ -465,6 +465,10 @@ def c13(tier, seed):
              timeout=300 if q else 1500)
     book_gen(ck, "gen_toggle_off0", Ops=["cap", "cancel", "enable", "disable"], Trading0=False, Prices=[10, 11, 12], Vols=[1, 2],
              MaxOrders=3, MaxOps=4 if q else 5, need=("crossed", "has_trade"), timeout=300 if q else 1500)
+    # the last grid price below 2^32 - 1 (tick 2) as a limit price while trading is disabled: such a bid rests, it is not a
+    # market order (which carries 2^32 - 1 and is rejected)
+    book_gen(ck, "gen_toggle_top_price", Ops=["cap", "disable", "enable"], Tick=2, NLevels=2, Prices=[12, 14], Vols=[1, 2], Kinds=["L", "M"],
+             price_offset=high(2, 14), MaxOrders=3, MaxOps=4 if q else 5, need=("trading_off", "rejected_order", "has_trade"), timeout=300 if q else 1500)
     # market and environment level
     mkt_gen(ck, "gen_market_toggle", Ticks=(1, 1), Ops=["cap", "modify", "disable", "enable"], Kinds=["L", "M"], Prices=[10, 11], Vols=[1],
             ModPrices=[10, 11], ModVolsAbs=[-1], MaxOrders=2, MaxOps=4, need=("trading_toggled", "has_trade"), timeout=300 if q else 1500)
